@@ -28,6 +28,14 @@ What the search-level theorems cover, said once:
   the turns at the two seams (`edge_oriented_seam_counterexample`); recorded findings, by design of
   `run_edge_oriented`.  The inner elements and the tree are covered
   (`edge_oriented_inner_edges_permitted`).
+* **modelled rather than verified — the NaN-free domain**: `VehicleRestriction::valid` compares in
+  `OrderedFloat`'s total order (`x <= NaN` is true: a NaN limit admits every vehicle), the model in
+  IEEE `≤` (false).  Restriction files and queries cannot hold a NaN (the readers refuse it); the
+  extreme-value stream gives restriction limits every other extreme (0, −0, negative, 1e308, ±∞,
+  subnormal; no axles, 255 axles), correspondence only.
+* the query / configuration decoders accept every form serde accepts: a unit as its name or as
+  `{"name": null}`, `road_class_parser` as `{"mapping": {…}}` or `[{…}]`
+  (`vehicle_dimension_read_exactly` was restated accordingly).
 -/
 import Compass.Proofs.Num
 import Compass.Model.Instance
@@ -454,11 +462,17 @@ query is read to exactly the given dimensions in the given units; anything else 
 
 open Build
 
-/-- a dimension is read from exactly a two-element array `[number, "unit"]`, as that number in that
-unit; no other JSON shape gives a dimension -/
+/-- a dimension is read from exactly a two-element array `[number, unit]`, as that number in that
+unit; no other JSON shape gives a dimension.  The unit is its serde name, as a string (`"feet"`) or
+— serde's other form of a unit variant — as the single key of an object with value `null`
+(`{"feet": null}`): `Build.unitName? false`.  (RESTATED after the fidelity review of the builders:
+the earlier statement admitted the string form only, which is false of the code —
+`"height": [5.0, {"feet": null}]` is accepted by `VehicleParameters::from_query`.) -/
 theorem vehicle_dimension_read_exactly (dec : Nat → α) (j : Option Json) :
-    (∀ x u, dimOfJson dec j = some (x, u) ↔ ∃ l b, j = some (.arr [.num l b, .str u.name]) ∧ x = dec b) ∧
-    (∀ x u, weightOfJson dec j = some (x, u) ↔ ∃ l b, j = some (.arr [.num l b, .str u.name]) ∧ x = dec b) :=
+    (∀ x u, dimOfJson dec j = some (x, u) ↔
+      ∃ l b uj, j = some (.arr [.num l b, uj]) ∧ unitName? false uj = some u.name ∧ x = dec b) ∧
+    (∀ x u, weightOfJson dec j = some (x, u) ↔
+      ∃ l b uj, j = some (.arr [.num l b, uj]) ∧ unitName? false uj = some u.name ∧ x = dec b) :=
   ⟨dimOfJson_iff dec j, weightOfJson_iff dec j⟩
 
 /-- `from_query` answers with a vehicle exactly when the query's `vehicle_parameters` has the five
@@ -849,6 +863,20 @@ example : (FrontierM.roadClass (α := ℚ) (some [1, 2]) [0, 2, 5]).valid 1 none
 example : (FrontierM.roadClass (α := ℚ) (some [1, 2]) [0, 2, 5]).valid 2 none = some false := by decide
 example : (FrontierM.turnRestriction (α := ℚ) [(3, 4)]).valid 4 (some 3) = some false := by decide
 example : frontierValid (α := ℚ) [.edgeCut [7], .roadClass (some [1]) [1, 1]] 1 none = .ok true := by decide
+
+/-! ### Non-vacuity: serde's other spellings are read, the near misses refused -/
+
+example :
+    Build.dimOfJson (fun b => (b : ℚ)) (some (.arr [.num "5.0" 5, .obj [("feet", .null)]])) = some (5, .feet) ∧
+    Build.dimOfJson (fun b => (b : ℚ)) (some (.arr [.num "5.0" 5, .obj [("feet", .obj [])]])) = none ∧
+    Build.dimOfJson (fun b => (b : ℚ)) (some (.arr [.num "5.0" 5, .obj [("feet", .null), ("x", .null)]])) = none ∧
+    Build.distanceBuild (.obj [("type", .str "distance"), ("distance_unit", .obj [("miles", .null)])]) = .ok .miles ∧
+    Build.roadClassParserOfConfig (.obj [("road_class_parser", .arr [.obj [("class1", .num "1" 0)]])]) =
+      Build.roadClassParserOfConfig
+        (.obj [("road_class_parser", .obj [("mapping", .obj [("class1", .num "1" 0)])])]) ∧
+    Build.roadClassParserOfConfig (.obj [("road_class_parser", .arr [])]) = none := by
+  decide +kernel
+
 
 end C04
 end Compass
